@@ -342,7 +342,7 @@ func (r *Run) ParallelW(family string, n int64, workers int, fn func(t *T)) {
 			return
 		}
 		t := &T{R: r, Family: family, Index: r.replay.Index, Rng: rng.New(r.Seed, family, r.replay.Index), lh: map[string]int64{}, ls: map[string]int64{}}
-		fn(t)
+		runCase(t, fn)
 		t.flush()
 		return
 	}
@@ -372,7 +372,7 @@ func (r *Run) ParallelW(family string, n int64, workers int, fn func(t *T)) {
 					}
 					t.Index = i
 					t.Rng = rng.New(r.Seed, family, i)
-					fn(t)
+					runCase(t, fn)
 				}
 				t.flush()
 			}
@@ -512,4 +512,18 @@ func LoadReplay(path string) (*Replay, error) {
 		return nil, err
 	}
 	return &rp, nil
+}
+
+// runCase runs one case; a panic escaping from it (the monitors recover the
+// panics they expect) is reported as a violation of the running property:
+// no exported apd entry point may panic on well-formed input.
+func runCase(t *T, fn func(t *T)) {
+	defer func() {
+		if p := recover(); p != nil {
+			buf := make([]byte, 4096)
+			buf = buf[:runtime.Stack(buf, false)]
+			t.Fail("panic", map[string]interface{}{"panic": fmt.Sprint(p), "stack": string(buf), "why": "panic during a monitored call"})
+		}
+	}()
+	fn(t)
 }
